@@ -28,6 +28,17 @@ def main():
                'checks and led to a stronger workload or clause (see DESIGN.md, Appendix B.4).')
     open(os.path.join(vf.ROOT, 'seeded', 'INDEX.md'), 'w').write('\n'.join(out) + '\n')
     print(len(rows), 'rows')
+    # compact per-property summary (pasted into DESIGN.md, Appendix B.4)
+    by = {}
+    for seed, prop, _w, _n, caught, first in rows:
+        by.setdefault(prop, []).append((seed.split('-')[1] + ('\\*' if first else ''), caught))
+    print('| property | seeds (→ catching checks) |')
+    print('|---|---|')
+    for prop in sorted(by):
+        groups = {}
+        for letter, caught in by[prop]:
+            groups.setdefault(caught, []).append(letter)
+        print(f'| {prop} | ' + ' · '.join(f"{', '.join(ls)} → {c or 'nothing'}" for c, ls in groups.items()) + ' |')
 
 
 if __name__ == '__main__':
